@@ -161,14 +161,6 @@ Proof.
   destruct it; cbn [l_item enc]; rewrite ?len_app, ?be_len; try reflexivity; cbn; lia.
 Qed.
 
-(* ---------- stream writers: the bytes handed to the buffered writer, in order ---------- *)
-Lemma sw_item_enc it : concat (map wop_bytes (sw_item it)) = enc it.
-Proof.
-  destruct it as [b|v|v|v|v|bits|v|v|t id| |kt vt sz|et sz|et sz];
-    cbn [sw_item map wop_bytes concat enc app]; rewrite ?app_nil_r; try reflexivity.
-  rewrite be2, hi_byte_shift, (u8_of_u16 id). reflexivity.
-Qed.
-
 (* ---------- in-place writers ---------- *)
 Lemma copy_to_at pre old rest v off :
   off = len pre -> len old = len v ->
